@@ -587,28 +587,28 @@ ORACLES = {
 
 def run(ctx):
     clauses = [
-        Clause('C20/correlation', corr_case, oracle_correlation, quick=600, thorough=19200, quick_shards=3),
-        Clause('C20/duplicates', dup_case, oracle_duplicates, quick=300, thorough=4800, quick_shards=1),
-        Clause('C20/combinations', comb_case, oracle_combinations, quick=400, thorough=7200, quick_shards=1),
-        Clause('C20/info-correlations', info_case('corr'), oracle_info_corr, quick=200, thorough=4800, quick_shards=1),
-        Clause('C20/info-combinations', info_case('comb'), oracle_info_comb, quick=200, thorough=4800, quick_shards=1),
-        Clause('C20/labels', label_case(['default', 'float', 'list']), oracle_labels, quick=800, thorough=14400, quick_shards=2),
-        Clause('C20/labels-cluster', cluster_case, oracle_cluster, quick=40, thorough=960, quick_shards=2),
-        Clause('C20/noise-categorical', cat_noise_case, oracle_noise_categorical, quick=500, thorough=9600, quick_shards=2),
-        Clause('C20/noise-missing', missing_noise_case, oracle_noise_missing, quick=400, thorough=7200, quick_shards=1),
-        Clause('C20/downsample', downsample_case, oracle_downsample, quick=400, thorough=7200, quick_shards=2),
+        Clause('C20/correlation', corr_case, oracle_correlation, quick=600, thorough=96000, quick_shards=3),
+        Clause('C20/duplicates', dup_case, oracle_duplicates, quick=300, thorough=24000, quick_shards=1),
+        Clause('C20/combinations', comb_case, oracle_combinations, quick=400, thorough=36000, quick_shards=1),
+        Clause('C20/info-correlations', info_case('corr'), oracle_info_corr, quick=200, thorough=24000, quick_shards=1),
+        Clause('C20/info-combinations', info_case('comb'), oracle_info_comb, quick=200, thorough=24000, quick_shards=1),
+        Clause('C20/labels', label_case(['default', 'float', 'list']), oracle_labels, quick=800, thorough=72000, quick_shards=2),
+        Clause('C20/labels-cluster', cluster_case, oracle_cluster, quick=40, thorough=4800, quick_shards=2),
+        Clause('C20/noise-categorical', cat_noise_case, oracle_noise_categorical, quick=500, thorough=48000, quick_shards=2),
+        Clause('C20/noise-missing', missing_noise_case, oracle_noise_missing, quick=400, thorough=36000, quick_shards=1),
+        Clause('C20/downsample', downsample_case, oracle_downsample, quick=400, thorough=36000, quick_shards=2),
     ]
     if ctx.known('duplicate-indices-short'):
         ctx.stats.excluded['info-duplicates clause (known finding)'] += 1
     else:
-        clauses.append(Clause('C20/info-duplicates', info_case('dup'), oracle_info_dup, quick=200, thorough=4800,
+        clauses.append(Clause('C20/info-duplicates', info_case('dup'), oracle_info_dup, quick=200, thorough=24000,
                               quick_shards=1))
     # ndarray distributions: with the known finding only the 2-class branch (which honours ndarray) is exercised
     nd_max2 = ctx.known('labels-ndarray-distribution')
     if nd_max2:
         ctx.stats.excluded['ndarray distribution with > 2 classes (known finding)'] += 1
     clauses.append(Clause('C20/labels-ndarray', label_case(['ndarray']) if not nd_max2 else label_case_two_classes,
-                          oracle_labels_ndarray, quick=400, thorough=7200, quick_shards=1))
+                          oracle_labels_ndarray, quick=400, thorough=36000, quick_shards=1))
     drive(ctx, clauses)
 
 
